@@ -24,7 +24,10 @@ def run(ctx: Ctx) -> None:
 
 
 def extra(ctx: Ctx, sweep: dict) -> None:
-    pass
+    """model loaders: spec/Layout.tla programs with their probe families (vf/layoutreplay.py), category C04"""
+    from ..layoutreplay import report as report_layout, run_slices
+    total = run_slices(ctx, ["A", "C", "D", "E"] if ctx.tier == "quick" else ["A", "B", "C", "D", "E", "F"], {"F": 2})
+    report_layout(ctx, total, "C04")
 
 
 def replay(path: str) -> int:
